@@ -28,6 +28,9 @@ Definition p_lt (l : alt) : list tok :=
   | LErased => [KW Kerased]
   end.
 
+Definition p_konst (c : akonst) : list tok :=
+  match c with CVar (dd, ii) => [VAR dd ii] | CVal n => [NUM n] end.
+
 Definition p_var (v : avar) : list tok := match v with AV dd ii => [VAR dd ii] | ASelf => [SELF] end.
 
 Definition angle (l : list (list tok)) : list tok :=
@@ -46,21 +49,30 @@ Fixpoint p_ty (t : aty) : list tok :=
   | TRef m l t => P PAmp :: p_lt l ++ (if m then [KW Kmut] else []) ++ p_ty t
   | TRaw m t => P PStar :: KW (if m then Kmut else Kconst) :: p_ty t
   | TSlice t => P PLBracket :: p_ty t ++ [P PRBracket]
+  | TArray t c => P PLBracket :: p_ty t ++ [P PSemi] ++ p_konst c ++ [P PRBracket]
   | TStr => [KW Kstr]
   | TNever => [P PBang]
   end
 with p_garg (a : agarg) : list tok :=
-  match a with GTy t => p_ty t | GLt l => p_lt l end.
+  match a with GTy t => p_ty t | GLt l => p_lt l | GCVal n => [NUM n] | GCVar c => match c with end end.
 
 Definition p_args (args : list agarg) : list tok := angle (map p_garg args).
 
 (** the names the writer gives to the variables a binder at inverted depth [D] introduces,
     starting at index [i] *)
+Definition btok (k : kind) (D i : nat) : list tok :=
+  match k with
+  | KTy => [VAR D i]
+  | KLt => [LTV D i]
+  | KConst => [KW Kconst; VAR D i]
+  | KInt => [KW Kint; VAR D i]
+  | KFloat => [KW Kfloat; VAR D i]
+  end.
+
 Fixpoint p_binder_names (D i : nat) (ks : list kind) : list (list tok) :=
   match ks with
   | [] => []
-  | KTy :: r => [VAR D i] :: p_binder_names D (S i) r
-  | KLt :: r => [LTV D i] :: p_binder_names D (S i) r
+  | k :: r => btok k D i :: p_binder_names D (S i) r
   end.
 
 Definition p_params (D i : nat) (ks : list kind) : list tok := angle (p_binder_names D i ks).
@@ -141,6 +153,9 @@ Section Unresolve.
     | LErased => LErased
     end.
 
+  Definition u_konst (k : nat) (c : ikonst) : akonst :=
+    match c with CVar v => CVar (k - fst v, snd v) | CVal n => CVal n end.
+
   Fixpoint u_ty (k : nat) (t : ity) : aty :=
     match t with
     | TVar v => TVar (u_var k v)
@@ -150,11 +165,17 @@ Section Unresolve.
     | TRef m l t => TRef m (u_lt k l) (u_ty k t)
     | TRaw m t => TRaw m (u_ty k t)
     | TSlice t => TSlice (u_ty k t)
+    | TArray t c => TArray (u_ty k t) (u_konst k c)
     | TStr => TStr
     | TNever => TNever
     end
   with u_garg (k : nat) (a : igarg) : agarg :=
-    match a with GTy t => GTy (u_ty k t) | GLt l => GLt (u_lt k l) end.
+    match a with
+    | GTy t => GTy (u_ty k t)
+    | GLt l => GLt (u_lt k l)
+    | GCVal n => GCVal n
+    | GCVar v => GTy (TVar (AV (k - fst v) (snd v)))     (* a bare parameter name *)
+    end.
 
   Definition u_wc (k : nat) (w : iwc) : awc :=
     match w with
